@@ -97,8 +97,9 @@ def explore(make_world, depth, merge=True, nproc=None, time_budget=None, max_sam
                 else:
                     seen.add((c, h))
                 nxt.append(h)
-                if len(res.samples) < max_samples and (len(nxt) % 97 == 1):
-                    res.samples.append([list(e) for e in h])
+        if nxt:     # samples: a few histories of the deepest completed level (spread over the level)
+            step = max(1, len(nxt) // max_samples)
+            res.samples = [[list(e) for e in h] for h in nxt[::step][:max_samples]]
         res.level_sizes.append(len(nxt))
         res.max_depth = d + 1
         frontier = nxt
